@@ -8,7 +8,7 @@ RULE = ("as C12: every kind of asynchronous operation (timer wait, TCP connect/r
         "with cancel/close/destroy/supersede at chosen instants; the harness counts handler invocations and flags a handler that runs inside an initiating call; "
         "non-trivial = at least 3 completions; distinct = distinct implementation traces")
 TRUSTED = ["model: coq/Model/Kernel.v (every completion is a post) + coq/Model/Sim.v handler slots", "udp async_wait(wait_write) is not exercised (known defect D3 of the design notes: not modelled)"]
-ASSUMPTIONS = ["one wait per timer", "resolver destruction with queued lookups is not exercised"]
+ASSUMPTIONS = ["one wait per timer"]
 generate = ltcommon.generate
 classify = tcommon.classify
 nontrivial = tcommon.nontrivial
